@@ -449,7 +449,7 @@ def _c_contend_shape(u, consts, cname):
                 for c, pol in ctxs:
                     if c == ('bool', mk('&', ('sym', 'address'), C(1))) or c == mk('!=', mk('&', ('sym', 'address'), C(1)), C(0)):
                         low = 1 if pol else 0
-                    elif 'address' in repr(c) and c != ('bool', ('sym', 'tstates')):
+                    elif 'address' in repr(c) and 'tstates' not in repr(c):
                         cont = pol
                         conds.append(c)
                 iocmap[(low, cont)] = name
